@@ -294,7 +294,10 @@ def random_case(rng, tier):
         return mk_mask_case(lens, [rng.random() < p for _ in range(sum(lens))], rng.choice(["scalar", "flat"]), dtype)
     for _ in range(20):
         rs = c02.random_selector(rng, n, allow_oob=False)
-        if isinstance(rs, (list, np.ndarray)) and not (isinstance(rs, np.ndarray) and rs.dtype == bool):
+        is_list = isinstance(rs, (list, np.ndarray)) and not (isinstance(rs, np.ndarray) and rs.dtype == bool) and not (isinstance(rs, list) and rs and isinstance(rs[0], bool))
+        if is_list and n and len({int(i) % n for i in np.asarray(rs).reshape(-1).tolist()}) == len(np.asarray(rs).reshape(-1)):
+            is_list = False        # already non-repeating (e.g. a block of consecutive rows with the interior permuted): keep it
+        if is_list:
             # non-repeating rows
             idxs = rng.sample(range(n), rng.randint(0, n)) if n else []
             rs = [i if rng.random() < 0.5 else i - n for i in idxs]
